@@ -111,7 +111,9 @@ def run_case(c, kind, builder, detector, mean, rng):
                     S = abtem.SMatrix(potential=p, energy=100e3, semiangle_cutoff=25.0, interpolation=2 if built else 1)
                     if built and not lazy:
                         S = S.build(lazy=False)
-                        return S.reduce(scan=scan) if detectors is None else S.scan(scan=scan, detectors=detectors)
+                        # (SMatrixArray.scan itself raises on the pinned tree - it hands `rechunk` to reduce(), which does not take it -
+                        # so the detectors go to reduce(); noted in DESIGN 10.10, outside C02)
+                        return S.reduce(scan=scan) if detectors is None else S.reduce(scan=scan, detectors=detectors)
                     return S.reduce(scan=scan, lazy=lazy) if detectors is None else S.scan(scan=scan, detectors=detectors, lazy=lazy)
             wave, kw = _Prism(), {"scan": abtem.CustomScan(np.array([[1.0, 1.5], [2.5, 0.5]]))}
         else:
